@@ -324,6 +324,12 @@ class Processor:
         else:
             new_value = value
 
+        # Keep an independent copy of a mutable value (e.g. list, array): a model that
+        # modifies its argument in place must not change the caller's object or the
+        # value seen by another run
+        if not isinstance(new_value, str | Number):
+            new_value = deepcopy(new_value)
+
         obj, att = _get_obj_att(self, key)
 
         if isinstance(obj, dict) and att in obj:
